@@ -509,4 +509,52 @@ theorem importTree_rescan_exportTree (t : Tree) (hv : TreeValid { root := true }
   rw [rescan_ok _ (exportTree_ok { root := true } t hv)]
   exact importTree_exportTree t hv
 
+/-! ### the export of the reimported tree -/
+
+theorem typeAttrs_congr (f g : ObjFields) (ht : g.type = f.type) (ha : g.attrs = f.attrs) (hp : g.pci = f.pci) :
+    typeAttrs g = typeAttrs f := by
+  unfold typeAttrs ObjFields.n ObjFields.a; rw [ht, ha, hp]
+
+theorem strAttr_sanitize (n : String) (v : Option Bytes) : strAttr n (v.map Xml.sanitize) = strAttr n v := by
+  cases v <;> simp [strAttr, sanitize_idem]
+
+theorem exportAttrs_normalise (root : Bool) (f : ObjFields) : exportAttrs root (normalise f) = exportAttrs root (clearDerived f) := by
+  have h1 : typeAttrs (normalise f) = typeAttrs (clearDerived f) := typeAttrs_congr _ _ rfl rfl rfl
+  have h2 : setsSeg root (normalise f) = setsSeg root (clearDerived f) := rfl
+  have h3 : strAttr "name" (normalise f).name = strAttr "name" (clearDerived f).name := strAttr_sanitize "name" f.name
+  have h4 : strAttr "subtype" (normalise f).subtype = strAttr "subtype" (clearDerived f).subtype := strAttr_sanitize "subtype" f.subtype
+  unfold exportAttrs
+  rw [h1, h2, h3, h4]; rfl
+
+theorem infoElem_sanPair (p : Bytes × Bytes) : infoElem (sanPair p) = infoElem p := by
+  simp [infoElem, exportInfo, sanPair, sanitize_idem]
+
+theorem subElems_normNode (d : Node) : subElems (normNode d) = subElems (clearNode d) := by
+  have ht : (normNode d).f.type = d.f.type := rfl
+  have ht2 : (clearNode d).f.type = d.f.type := rfl
+  unfold subElems
+  rw [ht, ht2]
+  have hi : (normNode d).infos.map infoElem = (clearNode d).infos.map infoElem := by
+    simp [normNode, clearNode, List.map_map, Function.comp_def, infoElem_sanPair]
+  have hu : ((normNode d).uds.filter udExportable).map udElem = ((clearNode d).uds.filter udExportable).map udElem := by
+    simp [normNode, clearNode, List.filter_filter]
+  rw [hi, hu]
+  by_cases h : d.f.type = tNUMA <;> simp [h, normNode, clearNode]
+
+mutual
+theorem exportTree_normTree : ∀ (root : Bool) (t : Tree), exportTree root (normTree t) = exportTree root (clearTree t)
+  | root, .mk d mem nor io misc => by
+    rw [normTree_mk, clearTree, exportTree_mk, exportTree_mk, subElems_normNode,
+      exportList_normList mem, exportList_normList nor, exportList_normList io, exportList_normList misc]
+    have : exportAttrs root (normNode d).f = exportAttrs root (clearNode d).f := exportAttrs_normalise root d.f
+    rw [this]
+theorem exportList_normList : ∀ ts : List Tree, exportList (normList ts) = exportList (clearList ts)
+  | [] => by rw [normList, clearList]
+  | t :: ts => by rw [normList, clearList, exportList_cons, exportList_cons, exportTree_normTree false t, exportList_normList ts]
+end
+
+/-- when nothing is there to clear, the second export IS the first one -/
+theorem clearDerived_id (f : ObjFields) (hG : f.type ≠ tGROUP) (hB : f.type ≠ tBRIDGE) : clearDerived f = f := by
+  simp [clearDerived, normalise, hG, hB]
+
 end Hw.XmlTree
